@@ -1,16 +1,48 @@
 import HcipyVerif.Lemmas.Scheduler
+import HcipyVerif.Lemmas.SchedulerCount
+import HcipyVerif.Lemmas.SchedulerTile
+import HcipyVerif.Lemmas.SchedulerTerm
+import HcipyVerif.Lemmas.SchedulerHist
 
 /-!
 # C20 — Time evolution fires each scheduled callback once, in order, at its time
 
-All theorems are about `HcipyVerif.Scheduler.loop` / `evolveUntil`, the model of
-`DynamicOpticalSystem.evolve_until`, for **every** queue, horizon, callback behaviour `kids`
-and fuel; the model is tied to the code by the C20 correspondence (harness/props/c20.py).
+All theorems are about `HcipyVerif.Scheduler.loop` / `evolveUntil` (one call) and `runOps` (a whole
+history of `add_callback` / `evolve_until` calls), the model of `DynamicOpticalSystem`, for **every**
+queue, horizon, callback behaviour `kids`, fuel and history; the model is tied to the code by the
+C20 correspondence (harness/props/c20.py drives exactly such histories through Driver/C20.lean).
+
+Clause of the property → theorems
+* *order, ties in insertion order*: `fired_sorted`, `fired_nodup`; across `evolve_until`
+  boundaries `history_inv` (`.sorted`), with `history_order_needs_horizon` showing its hypothesis
+  cannot be weakened to "not before the clock".
+* *exactly once* — membership form: `queued_fired_or_pending`, `kids_fired`, `fired_origin`;
+  counting form: `conservation_perm` (executed ++ queued is a permutation of initial ++ spawned),
+  `conservation_count`, `conservation_ctr`, `evolveUntil_conservation` (all hypothesis-free),
+  `exactly_once_count` (multiplicity exactly 1 / still queued); whole histories:
+  `history_conservation`, `history_origin`, `history_exactly_once`.
+* *clock equals the callback's time up to coalescing*: `clock_at_callback`, `history_inv` (`.clock`).
+* *callbacks may schedule callbacks / re-insert themselves; termination*: `kids_fired`,
+  `terminates_without_reinsertion`, `terminates_of_weight` (general potential argument),
+  `terminates_if_progress` (children ≥ δ later, at most B of them; explicit fuel),
+  `terminates_if_progress_single` (B = 1: fuel > Σ ⌈(T - time)/δ⌉), `terminates_if_progress_bound`,
+  `evolveUntil_terminates_if_progress`.
+* *intervals tile the elapsed time without gaps or overlap*: `loop_clock` (sum of dt),
+  `trace_consistent`, `intervals_tile` (first starts at the initial clock, last ends at the final
+  clock, consecutive abut, each > eps, every instant covered exactly once),
+  `callbacks_at_boundaries`, `tiling_reaches_target`, `evolveUntil_tiling`; whole histories: `history_conservation`.
+* *the clock ends at T*: `loop_clock`, `evolveUntil_spec`, `history_inv` (`.t_le`, `.lag`).
+* *backwards is refused*: `backwards_refused`, `history_backwards_noop`.
+* *whether or not callbacks remain queued*: `empty_queue_ok`, `empty_queue_raised_before_fix`.
 
 Hypotheses used (each has a satisfiability `example` at the end of the file):
 * `Inv s`   — the queue is what `add_callback` builds (sorted, counters unique and below the
               next counter) and nothing is scheduled before the current clock;
-* `WF kids` — a callback schedules further callbacks no earlier than its own time.
+* `WF kids` — a callback schedules further callbacks no earlier than its own time;
+* progress  — `∀ e c ∈ kids e, e.time + δ ≤ c.1` with `0 < δ`, and `(kids e).length ≤ B`;
+* `AddsFrom (·.hz) kids fuel ops` — every `add_callback` of a history is for a time not before the
+              largest target an accepted `evolve_until` was given so far (`(·.s.t)`: the clock);
+* `NoFuelOut kids fuel ops` — every `evolve_until` of the history returns.
 -/
 set_option linter.unusedSimpArgs false
 set_option linter.unusedVariables false
@@ -18,8 +50,8 @@ set_option linter.unusedVariables false
 namespace HcipyVerif.Scheduler
 
 /-- **Invariant preservation, tiling of the elapsed time, and the final clock.**
-`intervals_tile`: the integration intervals add up to exactly the clock advance;
-`clock_end`: the clock ends within the coalescing threshold below `T`;
+the integration intervals add up to exactly the clock advance (see `intervals_tile` for the
+explicit tiling); the clock ends within the coalescing threshold below `T`;
 the queue left behind holds only entries at or beyond the horizon. -/
 theorem loop_clock {kids : Entry → List (Rat × Nat)} (hk : WF kids) (T : Rat) (fuel : Nat) (s : Sys)
     (hi : Inv s) (hT : s.t ≤ T) (hok : (loop kids T fuel s).status = .ok) :
@@ -288,6 +320,399 @@ theorem evolveUntil_spec {kids : Entry → List (Rat × Nat)} (hk : WF kids) (T 
   exact ⟨h1, h2, h3, h4, h5, fired_sorted hk T fuel s hi, clock_at_callback hk T fuel s hi,
     queued_fired_or_pending hk T fuel s hi hok⟩
 
+/-! ### Conservation: "exactly once" as counting -/
+
+/-- **Conservation as a permutation** (no hypothesis: any queue, callbacks, fuel, status).  The
+executed callbacks together with the queue left behind are a rearrangement of the initial queue
+together with `spawned`, the entries the executed callbacks created (with the counters the model
+hands out).  Nothing is duplicated, dropped or invented. -/
+theorem conservation_perm (kids : Entry → List (Rat × Nat)) (T : Rat) (fuel : Nat) (s : Sys) :
+    (fired (loop kids T fuel s).trace ++ (loop kids T fuel s).s.queue).Perm
+      (s.queue ++ spawned kids s.ctr (fired (loop kids T fuel s).trace)) :=
+  loop_perm kids T fuel s
+
+/-- **Conservation as counting**: #executed + #still queued = #initially queued + #children
+scheduled by the executed callbacks (no hypothesis, any status). -/
+theorem conservation_count (kids : Entry → List (Rat × Nat)) (T : Rat) (fuel : Nat) (s : Sys) :
+    (fired (loop kids T fuel s).trace).length + (loop kids T fuel s).s.queue.length =
+      s.queue.length + ((fired (loop kids T fuel s).trace).map (fun e => (kids e).length)).sum := by
+  have := (loop_perm kids T fuel s).length_eq
+  simpa [spawned_length, nKids] using this
+
+/-- The insertion counter advances by exactly the number of children scheduled (no hypothesis). -/
+theorem conservation_ctr (kids : Entry → List (Rat × Nat)) (T : Rat) (fuel : Nat) (s : Sys) :
+    (loop kids T fuel s).s.ctr =
+      s.ctr + ((fired (loop kids T fuel s).trace).map (fun e => (kids e).length)).sum :=
+  loop_ctr kids T fuel s
+
+/-- The same three statements for `evolve_until` itself, whatever its status (a refused backwards
+call executes nothing and leaves queue and counter alone). -/
+theorem evolveUntil_conservation (kids : Entry → List (Rat × Nat)) (fuel : Nat) (s : Sys) (T : Rat) :
+    let r := evolveUntil kids fuel s T
+    (fired r.trace ++ r.s.queue).Perm (s.queue ++ spawned kids s.ctr (fired r.trace)) ∧
+    (fired r.trace).length + r.s.queue.length =
+      s.queue.length + ((fired r.trace).map (fun e => (kids e).length)).sum ∧
+    r.s.ctr = s.ctr + ((fired r.trace).map (fun e => (kids e).length)).sum := by
+  by_cases h : T < s.t
+  · simp [evolveUntil, h, fired, spawned]
+  · simp only [evolveUntil, h, if_false]
+    exact ⟨conservation_perm kids T fuel s, conservation_count kids T fuel s,
+      conservation_ctr kids T fuel s⟩
+
+/-- **Exactly once, as multiplicities.**  Of all entries that ever existed during the evolution
+(queued at the start or created by an executed callback), each one due before the horizon was
+executed with multiplicity exactly one and is no longer queued; each one due at or after the
+horizon is still queued and was not executed. -/
+theorem exactly_once_count {kids : Entry → List (Rat × Nat)} (hk : WF kids) (T : Rat) (fuel : Nat)
+    (s : Sys) (hi : Inv s) (hT : s.t ≤ T) (hok : (loop kids T fuel s).status = .ok) :
+    ∀ c ∈ s.queue ++ spawned kids s.ctr (fired (loop kids T fuel s).trace),
+      (c.time < T → (fired (loop kids T fuel s).trace).count c = 1 ∧ c ∉ (loop kids T fuel s).s.queue) ∧
+      (T ≤ c.time → c ∈ (loop kids T fuel s).s.queue ∧ (fired (loop kids T fuel s).trace).count c = 0) := by
+  intro c hc
+  have hp := loop_perm kids T fuel s
+  have hnd : (fired (loop kids T fuel s).trace ++ (loop kids T fuel s).s.queue).Nodup :=
+    hp.nodup_iff.mpr (nodup_queue_spawned hi _)
+  have hmem := hp.mem_iff.mpr hc
+  obtain ⟨-, -, -, -, hq⟩ := loop_clock hk T fuel s hi hT hok
+  have hf : ∀ f ∈ fired (loop kids T fuel s).trace, f.time < T := by
+    intro f hf
+    obtain ⟨clk, hclk⟩ := mem_fired.mp hf
+    exact (clock_at_callback hk T fuel s hi f clk hclk).2.2
+  rw [List.nodup_append] at hnd
+  constructor
+  · intro hlt
+    have hnq : c ∉ (loop kids T fuel s).s.queue := fun h => absurd (hq c h) (not_le.mpr hlt)
+    have : c ∈ fired (loop kids T fuel s).trace := by
+      rcases List.mem_append.mp hmem with h | h
+      · exact h
+      · exact absurd h hnq
+    refine ⟨?_, hnq⟩
+    rw [hnd.1.count, if_pos this]
+  · intro hge
+    have hnf : c ∉ fired (loop kids T fuel s).trace := fun h => absurd (hf c h) (not_lt.mpr hge)
+    refine ⟨?_, List.count_eq_zero.mpr hnf⟩
+    rcases List.mem_append.mp hmem with h | h
+    · exact absurd h hnf
+    · exact h
+
+/-! ### Termination with progress: callbacks that re-insert themselves -/
+
+/-- **Termination from a weight** (the general principle).  If each callback due before the horizon
+schedules children whose total weight is strictly below its own, then every fuel above the weight of
+the queue suffices.  No invariant needed. -/
+theorem terminates_of_weight {kids : Entry → List (Rat × Nat)} {T : Rat} (w : Entry → Nat)
+    (hw : ∀ e c, e.time < T → potential w (mkEntries c (kids e)) < w e) (s : Sys) :
+    ∀ fuel, potential w s.queue < fuel → (loop kids T fuel s).status = .ok :=
+  fun fuel => loop_terminates_of_weight w hw fuel s
+
+/-- **Termination with progress.**  If every callback due before the horizon schedules its children
+at least `δ > 0` later than itself, and at most `B` of them, the loop ends normally for every fuel
+above the potential `Σ_{q queued} (1 + B + … + B^(n_q - 1))`, `n_q = ⌈(T - q.time)/δ⌉` as a natural
+number (`0` at or beyond the horizon): an executed callback of level `n ≥ 1` is replaced by at most
+`B` callbacks of level at most `n - 1`. -/
+theorem terminates_if_progress {kids : Entry → List (Rat × Nat)} {δ T : Rat} {B : Nat} (hδ : 0 < δ)
+    (hprog : ∀ e, e.time < T → ∀ c ∈ kids e, e.time + δ ≤ c.1)
+    (hB : ∀ e, e.time < T → (kids e).length ≤ B) (s : Sys) :
+    ∀ fuel, (s.queue.map (fun q => geom B ⌈(T - q.time) / δ⌉₊)).sum < fuel →
+      (loop kids T fuel s).status = .ok :=
+  fun fuel => loop_terminates_of_weight (fun q => geom B (level δ T q.time))
+    (progress_weight hδ hprog hB) fuel s
+
+/-- **Self-re-insertion** (`B = 1`): each callback schedules at most one child, at least `δ` later.
+Then `Σ_{q queued} ⌈(T - q.time)/δ⌉ + 1` iterations suffice. -/
+theorem terminates_if_progress_single {kids : Entry → List (Rat × Nat)} {δ T : Rat} (hδ : 0 < δ)
+    (hprog : ∀ e, e.time < T → ∀ c ∈ kids e, e.time + δ ≤ c.1)
+    (h1 : ∀ e, e.time < T → (kids e).length ≤ 1) (s : Sys) :
+    ∀ fuel, (s.queue.map (fun q => ⌈(T - q.time) / δ⌉₊)).sum < fuel →
+      (loop kids T fuel s).status = .ok := by
+  intro fuel hf
+  apply terminates_if_progress hδ hprog h1 s fuel
+  simpa only [geom_one] using hf
+
+/-- A bound that does not look into the queue: with the invariant (nothing queued before the clock)
+`queue.length · (1 + B + … + B^(n-1))`, `n = ⌈(T - t)/δ⌉`, is enough fuel. -/
+theorem terminates_if_progress_bound {kids : Entry → List (Rat × Nat)} {δ T : Rat} {B : Nat}
+    (hδ : 0 < δ) (hprog : ∀ e, e.time < T → ∀ c ∈ kids e, e.time + δ ≤ c.1)
+    (hB : ∀ e, e.time < T → (kids e).length ≤ B) (s : Sys) (hi : Inv s) :
+    ∀ fuel, s.queue.length * geom B ⌈(T - s.t) / δ⌉₊ < fuel → (loop kids T fuel s).status = .ok := by
+  intro fuel hf
+  apply terminates_if_progress hδ hprog hB s fuel
+  refine lt_of_le_of_lt ?_ hf
+  apply potential_le_length_mul (fun q => geom B ⌈(T - q.time) / δ⌉₊)
+  intro q hq
+  apply geom_mono
+  apply Nat.ceil_mono
+  exact div_le_div_of_nonneg_right (by have := hi.future q hq; linarith) (le_of_lt hδ)
+
+/-- `evolve_until` returns normally under the progress hypothesis. -/
+theorem evolveUntil_terminates_if_progress {kids : Entry → List (Rat × Nat)} {δ T : Rat} {B : Nat}
+    (hδ : 0 < δ) (hprog : ∀ e, e.time < T → ∀ c ∈ kids e, e.time + δ ≤ c.1)
+    (hB : ∀ e, e.time < T → (kids e).length ≤ B) (s : Sys) (hT : s.t ≤ T) :
+    ∀ fuel, (s.queue.map (fun q => geom B ⌈(T - q.time) / δ⌉₊)).sum < fuel →
+      (evolveUntil kids fuel s T).status = .ok := by
+  intro fuel hf
+  simp only [evolveUntil, not_lt.mpr hT, if_false]
+  exact terminates_if_progress hδ hprog hB s fuel hf
+
+/-! ### Tiling: the integration intervals, explicitly -/
+
+/-- **The trace is clock-consistent** (no hypothesis, any status): replaying it from the initial
+clock, every integration is longer than `eps`, every callback saw exactly the running clock, and
+the replay ends at the final clock. -/
+theorem trace_consistent (kids : Entry → List (Rat × Nat)) (T : Rat) (fuel : Nat) (s : Sys) :
+    Consistent s.t (loop kids T fuel s).trace (loop kids T fuel s).s.t :=
+  loop_consistent kids T fuel s
+
+/-- **The integration intervals tile the elapsed time** — spelled out.  With
+`l = intervals s.t trace` (interval `k` is `(start, end)`):
+the first starts at the initial clock, the last ends at the final clock (no interval at all iff
+the clock did not move), consecutive intervals abut, each is longer than `eps`, and every instant
+of `[initial clock, final clock)` lies in exactly one interval `[start, end)` while an instant
+outside lies in none (no gap, no overlap).  No hypothesis, any status. -/
+theorem intervals_tile (kids : Entry → List (Rat × Nat)) (T : Rat) (fuel : Nat) (s : Sys) :
+    let r := loop kids T fuel s
+    let l := intervals s.t r.trace
+    (∀ p ∈ l.head?, p.1 = s.t) ∧ (∀ p ∈ l.getLast?, p.2 = r.s.t) ∧ (l = [] → r.s.t = s.t) ∧
+    (∀ i (hi : i + 1 < l.length), (l[i]'(by omega)).2 = (l[i + 1]).1) ∧
+    (∀ p ∈ l, eps < p.2 - p.1) ∧
+    (∀ τ, l.countP (fun p => decide (p.1 ≤ τ ∧ τ < p.2)) = if s.t ≤ τ ∧ τ < r.s.t then 1 else 0) := by
+  intro r l
+  have h : Tiles s.t r.s.t l := (loop_consistent kids T fuel s).tiles
+  refine ⟨h.head, h.last, ?_, h.abut, h.long, h.cover_once⟩
+  intro hl; rw [hl] at h; exact h.symm
+
+/-- **Callbacks run at interval boundaries**: for every callback occurrence in the trace, the clock
+it saw is the initial clock plus everything integrated before it, and the intervals before it tile
+exactly `[initial clock, that clock]`. -/
+theorem callbacks_at_boundaries (kids : Entry → List (Rat × Nat)) (T : Rat) (fuel : Nat) (s : Sys)
+    (pre post : List Event) (e : Entry) (clk : Rat)
+    (hs : (loop kids T fuel s).trace = pre ++ Event.fire e clk :: post) :
+    clk = s.t + sumDt pre ∧ Tiles s.t clk (intervals s.t pre) ∧
+    intervals s.t (loop kids T fuel s).trace = intervals s.t pre ++ intervals clk post := by
+  have h := loop_consistent kids T fuel s
+  have hc := h.fire_clock hs
+  rw [hs] at h
+  refine ⟨hc, ?_, ?_⟩
+  · rw [hc]; exact h.split.1.tiles
+  · rw [hs, intervals_append, hc]; rfl
+
+/-- With status ok the tiling reaches the target up to the threshold: the union of the intervals is
+`[s.t, t')` with `T - eps ≤ t' ≤ T`. -/
+theorem tiling_reaches_target {kids : Entry → List (Rat × Nat)} (hk : WF kids) (T : Rat) (fuel : Nat)
+    (s : Sys) (hi : Inv s) (hT : s.t ≤ T) (hok : (loop kids T fuel s).status = .ok) :
+    Tiles s.t (loop kids T fuel s).s.t (intervals s.t (loop kids T fuel s).trace) ∧
+    (loop kids T fuel s).s.t ≤ T ∧ T - (loop kids T fuel s).s.t ≤ eps := by
+  obtain ⟨-, -, h3, h4, -⟩ := loop_clock hk T fuel s hi hT hok
+  exact ⟨(loop_consistent kids T fuel s).tiles, h3, h4⟩
+
+/-- The tiling statements for `evolve_until` itself, whatever its status (a refused backwards call
+integrates nothing and leaves the clock alone). -/
+theorem evolveUntil_tiling (kids : Entry → List (Rat × Nat)) (fuel : Nat) (s : Sys) (T : Rat) :
+    let r := evolveUntil kids fuel s T
+    Consistent s.t r.trace r.s.t ∧ Tiles s.t r.s.t (intervals s.t r.trace) ∧
+    sumDt r.trace = r.s.t - s.t := by
+  intro r
+  have h : Consistent s.t r.trace r.s.t := by
+    by_cases hT : T < s.t
+    · simp only [r, evolveUntil, hT, if_true]; rfl
+    · simp only [r, evolveUntil, hT, if_false]; exact loop_consistent kids T fuel s
+  refine ⟨h, h.tiles, ?_⟩
+  have := h.end_eq
+  linarith
+
+/-! ### Histories: repeated `evolve_until` with `add_callback` in between -/
+
+/-- **A refused backwards call is a no-op on the whole history.** -/
+theorem history_backwards_noop (kids : Entry → List (Rat × Nat)) (fuel : Nat) (h : Hist) (T : Rat)
+    (hT : T < h.s.t) : stepOp kids fuel h (.evolve T) = h ∧
+      (evolveUntil kids fuel h.s T).status = .backwards :=
+  ⟨stepOp_backwards kids fuel h T hT, (backwards_refused kids fuel h.s T hT).1⟩
+
+/-- **History-level conservation, counters and tiling** — for *every* list of interface calls, no
+hypothesis.  After running `ops` from the fresh system:
+executed + queued is a rearrangement of everything ever created; the created entries carry the
+counters `0 … ctr-1` in creation order (so no two share one); nothing ran twice and nothing that ran
+is still queued; and the concatenated event trace of all evolutions is clock-consistent from time
+`0` to the current clock, so its intervals tile `[0, clock)`. -/
+theorem history_conservation (kids : Entry → List (Rat × Nat)) (fuel : Nat) (ops : List Op) :
+    let H := runOps kids fuel hinit ops
+    (fired H.trace ++ H.s.queue).Perm H.created ∧
+    H.created.map (·.ctr) = List.range H.s.ctr ∧
+    (fired H.trace ++ H.s.queue).Nodup ∧
+    Consistent 0 H.trace H.s.t ∧ Tiles 0 H.s.t (intervals 0 H.trace) := by
+  intro H
+  have hc := hcons_run kids fuel ops
+  exact ⟨hc.perm, hc.ctrs, hc.nodup, hc.tiles, hc.tiles.tiles⟩
+
+/-- **Where the created entries come from**: each stems from an `add_callback` of the history or is a
+child of an executed callback; each `add_callback` of the history and each child of an executed
+callback has its entry. -/
+theorem history_origin (kids : Entry → List (Rat × Nat)) (fuel : Nat) (ops : List Op) :
+    let H := runOps kids fuel hinit ops
+    (∀ c ∈ H.created, Op.add c.time c.id ∈ ops ∨ ∃ e ∈ fired H.trace, (c.time, c.id) ∈ kids e) ∧
+    (∀ t id, Op.add t id ∈ ops → ∃ c ∈ H.created, c.time = t ∧ c.id = id) ∧
+    (∀ e ∈ fired H.trace, ∀ k ∈ kids e, ∃ c ∈ H.created, c.time = k.1 ∧ c.id = k.2) := by
+  intro H
+  have h := horigin_run kids fuel ops
+  exact ⟨h.sound, h.adds, h.kids⟩
+
+/-- one `add_callback` not before the time evolved to preserves the history invariant -/
+theorem history_step_add {kids : Entry → List (Rat × Nat)} {fuel : Nat} {h : Hist} (hi : HInv h)
+    (t : Rat) (id : Nat) (ht : h.hz ≤ t) : HInv (stepOp kids fuel h (.add t id)) := by
+  rw [stepOp_add]
+  refine ⟨inv_addCallback hi.inv t id (le_trans hi.t_le ht), hi.t_le, hi.lag, ?_, hi.sorted, ?_,
+    hi.clock⟩
+  · intro q hq
+    rcases mem_insert.mp hq with rfl | hq
+    · exact ht
+    · exact hi.pending q hq
+  · intro f hf
+    have := hi.below f hf
+    exact ⟨this.1, by simp only [addCallback]; omega⟩
+
+/-- one `evolve_until` (any target: backwards is refused, a target inside the stretch already
+covered does nothing, a later target evolves) preserves the history invariant -/
+theorem history_step_evolve {kids : Entry → List (Rat × Nat)} (hk : WF kids) {fuel : Nat} {h : Hist}
+    (hi : HInv h) (T : Rat) (hf : (evolveUntil kids fuel h.s T).status ≠ .outOfFuel) :
+    HInv (stepOp kids fuel h (.evolve T)) := by
+  by_cases hT : T < h.s.t
+  · rw [stepOp_backwards kids fuel h T hT]; exact hi
+  · have hT' : h.s.t ≤ T := not_lt.mp hT
+    have hok : (loop kids T fuel h.s).status = .ok := by
+      simp only [evolveUntil, hT, if_false] at hf
+      rcases loop_status kids T fuel h.s with h' | h'
+      · exact h'
+      · exact absurd h' hf
+    rw [stepOp_forward kids fuel h T hT]
+    by_cases hz : h.hz < T
+    · obtain ⟨g1, g2, g3, g4, g5⟩ := loop_clock hk T fuel h.s hi.inv hT' hok
+      simp only [hz, if_true]
+      have hbelow : ∀ f ∈ fired h.trace, Below f h.s := fun f hf =>
+        ⟨fun q hq => Or.inl (lt_of_lt_of_le (hi.below f hf).1 (hi.pending q hq)), (hi.below f hf).2⟩
+      refine ⟨g1, g3, g4, g5, ?_, ?_, ?_⟩
+      · simp only [fired_append]
+        unfold Sorted
+        rw [List.pairwise_append]
+        exact ⟨hi.sorted, fired_sorted hk T fuel h.s hi.inv, fun f hf g hg =>
+          fired_lower_bound hk T fuel h.s hi.inv f (hbelow f hf) g hg⟩
+      · intro f hf
+        simp only [fired_append, List.mem_append] at hf
+        rcases hf with hf | hf
+        · have := hi.below f hf
+          exact ⟨lt_trans this.1 hz, by rw [loop_ctr]; omega⟩
+        · obtain ⟨clk, hclk⟩ := mem_fired.mp hf
+          exact ⟨(clock_at_callback hk T fuel h.s hi.inv f clk hclk).2.2,
+            fired_ctr_lt kids T fuel h.s hi.inv.ctr f hf⟩
+      · intro e clk hm
+        rcases List.mem_append.mp hm with hm | hm
+        · exact hi.clock e clk hm
+        · have := clock_at_callback hk T fuel h.s hi.inv e clk hm
+          exact ⟨this.1, this.2.1⟩
+    · have hz' : T ≤ h.hz := not_lt.mp hz
+      cases fuel with
+      | zero => simp [loop] at hok
+      | succ n =>
+        rw [loop_idle kids T n h.s (fun q hq => le_trans hz' (hi.pending q hq))
+          (by have := hi.lag; linarith)]
+        simp only [hz, if_false, fired, spawned, List.append_nil]
+        exact hi
+
+/-- **The history theorem.**  Run any list of interface calls from the fresh system, where every
+`add_callback` is for a time not before the time the system has already been evolved to
+(`AddsFrom (·.hz)`; backwards `evolve_until` calls may occur anywhere — they are refused and change
+nothing) and every `evolve_until` returns (`NoFuelOut`).  Then, with `hz` the largest accepted target:
+the queue invariant holds; the clock is within `eps` below `hz`; every queued entry is due at or after
+`hz`; the callbacks executed *over all evolutions, concatenated,* ran in strict `(time, counter)`
+order — non-decreasing time, ties in insertion order, across `evolve_until` boundaries; each was due
+strictly before `hz`; each ran with the clock at most `eps` behind its time. -/
+theorem history_inv {kids : Entry → List (Rat × Nat)} (hk : WF kids) (fuel : Nat) (ops : List Op)
+    (ha : AddsFrom (·.hz) kids fuel ops) (hf : NoFuelOut kids fuel ops) :
+    HInv (runOps kids fuel hinit ops) := by
+  induction ops using List.reverseRecOn with
+  | nil => exact hinv_init
+  | append_singleton ops op ih =>
+    rw [runOps_snoc]
+    cases op with
+    | add t id =>
+      obtain ⟨ha1, ha2⟩ := addsFrom_snoc_add.mp ha
+      exact history_step_add (ih ha1 (noFuelOut_snoc_add.mp hf)) t id ha2
+    | evolve T =>
+      obtain ⟨hf1, hf2⟩ := noFuelOut_snoc_evolve.mp hf
+      exact history_step_evolve hk (ih (addsFrom_snoc_evolve.mp ha) hf1) T hf2
+
+/-- **Exactly once over a whole history.**  Under the hypotheses of `history_inv`, of all entries
+ever created (by `add_callback` calls or by executed callbacks): each one due before the final
+target `hz` has been executed with multiplicity exactly one over all evolutions and is not queued;
+each one due at or after `hz` is queued and has not been executed. -/
+theorem history_exactly_once {kids : Entry → List (Rat × Nat)} (hk : WF kids) (fuel : Nat)
+    (ops : List Op) (ha : AddsFrom (·.hz) kids fuel ops) (hf : NoFuelOut kids fuel ops) :
+    let H := runOps kids fuel hinit ops
+    ∀ c ∈ H.created,
+      (c.time < H.hz → (fired H.trace).count c = 1 ∧ c ∉ H.s.queue) ∧
+      (H.hz ≤ c.time → c ∈ H.s.queue ∧ (fired H.trace).count c = 0) := by
+  intro H c hc
+  have hi : HInv H := history_inv hk fuel ops ha hf
+  have hcons : HCons H := hcons_run kids fuel ops
+  have hmem := hcons.perm.mem_iff.mpr hc
+  have hnd := hcons.nodup
+  rw [List.nodup_append] at hnd
+  constructor
+  · intro hlt
+    have hnq : c ∉ H.s.queue := fun h => absurd (hi.pending c h) (not_le.mpr hlt)
+    have : c ∈ fired H.trace := by
+      rcases List.mem_append.mp hmem with h | h
+      · exact h
+      · exact absurd h hnq
+    exact ⟨by rw [hnd.1.count, if_pos this], hnq⟩
+  · intro hge
+    have hnf : c ∉ fired H.trace := fun h => absurd (hi.below c h).1 (not_lt.mpr hge)
+    refine ⟨?_, List.count_eq_zero.mpr hnf⟩
+    rcases List.mem_append.mp hmem with h | h
+    · exact absurd h hnf
+    · exact h
+
+/-- Under the weaker hypothesis that every `add_callback` is merely not before the *clock*, and with
+no assumption on the fuel, the queue invariant still holds after every history (so every single
+`evolve_until` of it enjoys `evolveUntil_spec`). -/
+theorem history_inv_weak {kids : Entry → List (Rat × Nat)} (hk : WF kids) (fuel : Nat) (ops : List Op)
+    (ha : AddsFrom (·.s.t) kids fuel ops) : Inv (runOps kids fuel hinit ops).s := by
+  induction ops using List.reverseRecOn with
+  | nil => exact inv_init
+  | append_singleton ops op ih =>
+    rw [runOps_snoc]
+    cases op with
+    | add t id =>
+      obtain ⟨ha1, ha2⟩ := addsFrom_snoc_add.mp ha
+      exact inv_addCallback (ih ha1) t id ha2
+    | evolve T =>
+      have hi := ih (addsFrom_snoc_evolve.mp ha)
+      by_cases hT : T < (runOps kids fuel hinit ops).s.t
+      · rw [stepOp_backwards kids fuel _ T hT]; exact hi
+      · rw [stepOp_forward kids fuel _ T hT]
+        exact loop_inv hk T fuel _ hi (not_lt.mp hT)
+
+/-- callbacks that schedule nothing -/
+def noKids : Entry → List (Rat × Nat) := fun _ => []
+
+/-- two callbacks just below time 1, evolve to 1, then a third callback between the resting clock
+and 1, evolve on -/
+def sliverOps : List Op :=
+  [Op.add (1 - 5/10000000) 0, Op.add (1 - 2/10000000) 1, Op.evolve 1, Op.add (1 - 4/10000000) 2,
+   Op.evolve 2]
+
+/-- The stronger hypothesis of `history_inv` is needed for the order *across* evolutions: because
+of the coalescing the clock may rest up to `eps` below the target reached, and an `add_callback`
+for an instant in that sliver is "not in the past" by the clock yet runs, in the next evolution,
+after a callback with a later time has already run.  (Within each single evolution the order
+holds regardless: `fired_sorted`.) -/
+theorem history_order_needs_horizon :
+    (runOps noKids 10 hinit (sliverOps.take 3)).s.t ≤ 1 - 4/10000000 ∧
+    1 - 4/10000000 < (runOps noKids 10 hinit (sliverOps.take 3)).hz ∧
+    (fired (runOps noKids 10 hinit sliverOps).trace).map (·.id) = [0, 1, 2] ∧
+    ¬ Sorted (fired (runOps noKids 10 hinit sliverOps).trace) := by
+  unfold Sorted
+  decide +kernel
+
 /-! ### Non-vacuity: a schedule with ties and a self-re-inserting callback meets the hypotheses
 and runs to completion. -/
 
@@ -309,5 +734,57 @@ example : Inv demoSys :=
 example : (evolveUntil demoKids 10 demoSys 3).status = .ok ∧
     (fired (evolveUntil demoKids 10 demoSys 3).trace).map (fun e => (e.time, e.id)) =
       [(1/2, 4), (1, 7), (1, 3), (2, 7)] := by decide +kernel
+
+/-- the progress hypothesis of `terminates_if_progress_single` holds for the self-re-inserting
+`demoKids` with `δ = 1` (for every horizon) … -/
+example (T : Rat) : (∀ e, e.time < T → ∀ c ∈ demoKids e, e.time + 1 ≤ c.1) ∧
+    (∀ e, e.time < T → (demoKids e).length ≤ 1) := by
+  constructor
+  · intro e _ c hc
+    unfold demoKids at hc
+    split at hc
+    · simp at hc; rw [hc]
+    · simp at hc
+  · intro e _
+    unfold demoKids
+    split <;> simp
+
+/-- … the potential of `demoSys` for the horizon `3` is `⌈2⌉ + ⌈2⌉ + ⌈5/2⌉ + 0 = 7`, so the theorem
+guarantees that 8 iterations suffice (the run above needs 5). -/
+example : (loop demoKids 3 8 demoSys).status = .ok := by
+  apply terminates_if_progress_single (δ := 1) (by norm_num)
+  · intro e _ c hc
+    unfold demoKids at hc
+    split at hc
+    · simp at hc; rw [hc]
+    · simp at hc
+  · intro e _
+    unfold demoKids
+    split <;> simp
+  · have : demoSys.queue = [⟨1/2, 2, 4⟩, ⟨1, 0, 7⟩, ⟨1, 1, 3⟩, ⟨5, 3, 9⟩] := by decide +kernel
+    rw [this]
+    have h1 : ⌈(5 / 2 : Rat)⌉₊ = 3 := by rw [Nat.ceil_eq_iff (by norm_num)]; norm_num
+    have h2 : ⌈(-2 : Rat)⌉₊ = 0 := by rw [Nat.ceil_eq_zero]; norm_num
+    norm_num [h1, h2]
+
+/-- a history with ties, a self-re-inserting callback, a zero-length evolution, a refused backwards
+call, an `add_callback` between evolutions and a target inside the stretch already covered -/
+def demoOps : List Op :=
+  [] ++ [Op.add 1 7] ++ [Op.add 1 3] ++ [Op.add (1/2) 4] ++ [Op.evolve 0] ++ [Op.evolve (3/2)] ++
+    [Op.add 2 3] ++ [Op.evolve 1] ++ [Op.add (3/2) 5] ++ [Op.evolve (3/2)] ++ [Op.evolve 3]
+
+/-- the hypotheses of `history_inv` hold for `demoOps` -/
+example : AddsFrom (·.hz) demoKids 20 demoOps ∧ NoFuelOut demoKids 20 demoOps := by
+  unfold demoOps
+  simp only [addsFrom_snoc_add, addsFrom_snoc_evolve, addsFrom_nil, noFuelOut_snoc_add,
+    noFuelOut_snoc_evolve, noFuelOut_nil, true_and]
+  decide +kernel
+
+/-- … and its outcome: the callbacks executed over the four accepted evolutions, in order -/
+example : (fired (runOps demoKids 20 hinit demoOps).trace).map (fun e => (e.time, e.ctr, e.id)) =
+      [(1/2, 2, 4), (1, 0, 7), (1, 1, 3), (3/2, 5, 5), (2, 3, 7), (2, 4, 3)] ∧
+    (runOps demoKids 20 hinit demoOps).hz = 3 ∧
+    (runOps demoKids 20 hinit demoOps).s.queue.map (fun e => (e.time, e.ctr, e.id)) = [(3, 6, 7)] := by
+  decide +kernel
 
 end HcipyVerif.Scheduler
